@@ -26,6 +26,7 @@ import (
 	"os/exec"
 	"path/filepath"
 	"strings"
+	"time"
 
 	"github.com/notaryproject/notation-go/internal/io"
 	"github.com/notaryproject/notation-go/internal/slices"
@@ -36,6 +37,10 @@ import (
 
 // maxPluginOutputSize is the maximum size of the plugin output.
 const maxPluginOutputSize = 64 * 1024 * 1024 // 64 MiB
+
+// pluginWaitDelay bounds the time to wait for the plugin's output pipes to be
+// closed after the context of a plugin call is done.
+const pluginWaitDelay = 5 * time.Second
 
 var executor commander = &execCommander{} // for unit test
 
@@ -225,6 +230,9 @@ type execCommander struct{}
 func (c execCommander) Output(ctx context.Context, name string, command plugin.Command, req []byte) ([]byte, []byte, error) {
 	var stdout, stderr bytes.Buffer
 	cmd := exec.CommandContext(ctx, name, string(command))
+	// do not wait forever for the output pipes when the context is done but
+	// a descendant of the plugin process keeps them open
+	cmd.WaitDelay = pluginWaitDelay
 	cmd.Stdin = bytes.NewReader(req)
 	// The limit writer will be handled by the caller in run() by comparing the
 	// bytes written with the expected length of the bytes.
